@@ -147,6 +147,15 @@ add("C12", "exploration",
     "Single-nucleotide sequences not judged; 0-based connect indices as implemented; the legacy 'links' JSON key (needs an older networkx) is not exercised.",
     "§4 C12")
 
+add("C20", "fault_enumeration",
+    "exhaustive fault injection at every stage boundary x output-path state, with a follow-up successful run",
+    "For each of the three programs an exception is raised at the entry of every call in the top-level function (14 / 17 / 5 "
+    "stages) and, for the serialisers, after 1-3 written lines, for each of three states of the output path; directory "
+    "listings with content hashes are compared before/after the failure and again after a later successful run of the same "
+    "program in the same process; the fault-free runs check completeness and GROMACS-style backups.",
+    "Stage list = call sites of gen_params / gen_coords / gen_seq as of the pinned tree (pmc/props/c20.py); a failure of the final DeferredFileWriter.write itself is only judged for its immediate effect.",
+    "§5 C20")
+
 for _p in ["C06", "C07",
-           "C15", "C18", "C20"]:
+           "C15", "C18"]:
     NOT_YET[_p] = "check under construction in this session (bounded exhaustive exploration applies; see DESIGN.md)"
